@@ -815,7 +815,7 @@ func (w *World) streamRef(ref int) *StreamM {
 }
 
 // steerEntParams adapts a (valid) enterprise parameter patch to the orders in flight, in place (the patch stays the
-// record of what was proposed): 1 = fewer signers than decisions already recorded on some raised order; 2 = MinAccepts
+// record of what was proposed): 3 = see below; 1 = fewer signers than decisions already recorded on some raised order; 2 = MinAccepts
 // equal to the accepts already recorded on some raised order (the recorded decisions settle it under the new values).
 func (w *World) steerEntParams(p *ParamsPatch) {
 	kind := p.Steer
@@ -854,6 +854,40 @@ func (w *World) steerEntParams(p *ParamsPatch) {
 		}
 		p.MinAccepts = uint64(acc)
 		w.Class("gov.ent-params-steered.min-accepts-equals-recorded-accepts")
+	case 3:
+		// both quorums hold at once under the new values: recorded accepts reach MinAccepts and recorded rejects
+		// exceed len(signers) - MinAccepts (impossible while the parameters stand still)
+		var tgt *Order
+		acc, rej := 0, 0
+		for _, o := range w.Ent.Orders {
+			if o.Status != StRaised {
+				continue
+			}
+			a, r := 0, 0
+			for _, d := range o.Decisions {
+				if d.Accept {
+					a++
+				} else {
+					r++
+				}
+			}
+			if a >= 1 && r >= 1 {
+				tgt, acc, rej = o, a, r
+			}
+		}
+		if tgt == nil {
+			return
+		}
+		n := acc + rej - 1
+		if n > len(p.Signers) {
+			n = len(p.Signers)
+		}
+		if n < acc {
+			return
+		}
+		p.Signers = p.Signers[:n]
+		p.MinAccepts = uint64(acc)
+		w.Class("gov.ent-params-steered.both-quorums-hold-under-new-values")
 	}
 }
 
